@@ -22,7 +22,7 @@ Definition wk_n (w n : nat) : list choice := repeat (CWk w WNone) n.
    recv returns two complete requests, received() queues both and submits the channel *)
 Definition read_two : list choice :=
   io_n 3 ++ [CIo (ELen 0); CIo (ELen 0)] ++ io_n 2 ++
-  [CIo (ESelect true false); CIo (ERecv (RData [IReq false; IReq false]))] ++ io_n 9.
+  [CIo (ESelect true false); CIo (ERecv (RData [IReq false; IReq false]))] ++ io_n 11.
 
 Definition sched_f22 : list choice :=
   read_two ++
